@@ -159,6 +159,12 @@ def build_reporting(family, start, days, values_fn, variant="plain"):
             if v is None:
                 return CR.from_series(None, temp, is_electricity_data=True)
             return CR.from_series(fr["observed"].tz_convert("UTC"), temp, is_electricity_data=True)
+        if variant == "from_series_weather_in_utc":
+            # ... and the other way round: local meter readings, weather feed in UTC
+            temp = fr["temperature"].tz_convert("UTC")
+            if v is None:
+                return CR.from_series(None, temp, is_electricity_data=True)
+            return CR.from_series(fr["observed"], temp, is_electricity_data=True)
         return CR(fr, is_electricity_data=True)
     return em.HourlyReportingData(fr, is_electricity_data=True)
 
@@ -239,7 +245,7 @@ def run_case(case):
     family_pred = "hourly" if family in ("hourly_satgap", "hourly_pv") else family
     viol = []
     key0 = {"family": family}
-    if variant == "from_series_mixed_zones":
+    if variant in ("from_series_mixed_zones", "from_series_weather_in_utc"):
         key0["variant"] = variant
     # number of usage values
     if family == "daily" and variant == "hourly_frame":
@@ -338,6 +344,7 @@ def cases(tier):
                 out.append({"family": f, "set": sname, "variant": "six_am_hourly_feed"})
             if f == "caltrack" and sname == "week":
                 out.append({"family": f, "set": sname, "variant": "from_series_mixed_zones"})
+                out.append({"family": f, "set": sname, "variant": "from_series_weather_in_utc"})
             if f == "daily" and sname in ("dst_month", "week") or (f == "daily" and sname == "year" and tier == "thorough"):
                 out.append({"family": f, "set": sname, "variant": "hourly_frame"})
     # longest first so the pool is busy
